@@ -9,4 +9,8 @@ import DSymVerif.Props.C05
 #print axioms DSymVerif.C05.oriented_cover_oriented
 #print axioms DSymVerif.C05.oriented_cover_preserves_degrees
 #print axioms DSymVerif.C05.cover_for_table_compat
+#print axioms DSymVerif.C05.table_cover_is_covering
+#print axioms DSymVerif.C05.subgroup_cover_is_covering
+#print axioms DSymVerif.C05.finite_universal_cover_is_covering
+#print axioms DSymVerif.C05.cover_fibres
 #print axioms DSymVerif.C05.monitors_sound
